@@ -76,6 +76,14 @@ func (c *Change) Replace(d data.Data, cl Changelog) (*ast.File, error) {
 	return c.replacer.Replace(d, cl)
 }
 
+// Apply is Replace that also reports whether the change modified the file.
+// A change that matched does not modify the file if its replacement fits in
+// none of the places that matched (a selector where only a name may stand):
+// for the file that is as if the change had not matched.
+func (c *Change) Apply(d data.Data, cl Changelog) (_ *ast.File, modified bool, _ error) {
+	return c.replacer.replace(d, cl)
+}
+
 func connectDots(fset *token.FileSet, lhs, rhs []token.Pos, conns map[token.Pos]token.Pos) error {
 	cache := make(map[token.Pos]token.Position)
 	getPosition := func(pos token.Pos) token.Position {
